@@ -28,7 +28,40 @@ func specLockup() {
 		"Keeper.iteratorShorterDuration", "Keeper.iterator", "Keeper.unlockFromIterator", "Keeper.beginUnlockFromIterator")
 }
 
-func specGammKeeper()    {}
-func specRouterOps()     {}
-func specSuperfluidOps() {}
-func specEpochs()        {}
+// ---------------------------------------------------------------- x/gamm keeper (C02)
+func specGammKeeper() {
+	const k = "x/gamm/keeper"
+	pinK("GammKeeperOps", k, // pool_service.go, share.go, swap.go
+		"Keeper.InitializePool", "Keeper.JoinPoolNoSwap", "getMaximalNoSwapLPAmount", "Keeper.JoinSwapExactAmountIn", "Keeper.JoinSwapShareAmountOut",
+		"Keeper.ExitPool", "Keeper.ExitSwapShareAmountIn", "Keeper.ExitSwapExactAmountOut",
+		"Keeper.applyJoinPoolStateChange", "Keeper.applyExitPoolStateChange", "Keeper.MintPoolShareToAccount", "Keeper.BurnPoolShareFromAccount",
+		"Keeper.SwapExactAmountIn", "Keeper.SwapExactAmountOut", "Keeper.updatePoolForSwap")
+}
+
+// ---------------------------------------------------------------- x/poolmanager router (C05)
+func specRouterOps() {
+	const pm = "x/poolmanager"
+	pinK("RouterOps", pm,
+		"Keeper.RouteExactAmountIn", "Keeper.SplitRouteExactAmountIn", "Keeper.SwapExactAmountIn", "Keeper.SwapExactAmountInNoTakerFee",
+		"Keeper.RouteExactAmountInNoTakerFee", "Keeper.multihopEstimateOutGivenExactAmountInInternal", "Keeper.RouteExactAmountOut",
+		"Keeper.SplitRouteExactAmountOut", "Keeper.MultihopEstimateInGivenExactAmountOut", "Keeper.createMultihopExpectedSwapOuts",
+		"Keeper.chargeTakerFee", "Keeper.GetTradingPairTakerFee")
+}
+
+// ---------------------------------------------------------------- x/superfluid stake.go (C11)
+func specSuperfluidOps() {
+	const k = "x/superfluid/keeper"
+	pinK("SuperfluidOps", k,
+		"Keeper.GetTotalSyntheticAssetsLocked", "Keeper.GetExpectedDelegationAmount", "Keeper.RefreshIntermediaryDelegationAmounts",
+		"Keeper.IncreaseSuperfluidDelegation", "Keeper.validateLockForSF", "Keeper.validateLockForSFDelegate", "Keeper.SuperfluidDelegate",
+		"Keeper.undelegateCommon", "Keeper.SuperfluidUndelegate", "Keeper.SuperfluidUnbondLock", "Keeper.SuperfluidUndelegateAndUnbondLock",
+		"Keeper.unbondLock", "Keeper.alreadySuperfluidStaking", "Keeper.mintOsmoTokensAndDelegate", "Keeper.forceUndelegateAndBurnOsmoTokens")
+}
+
+// ---------------------------------------------------------------- x/epochs (C17)
+func specEpochs() {
+	pinK("EpochsOps", "x/epochs/keeper", "Keeper.BeginBlocker", "Keeper.AddEpochInfo", "Keeper.setEpochInfo", "Keeper.IterateEpochInfo",
+		"Keeper.AfterEpochEnd", "Keeper.BeforeEpochStart")
+	pinK("EpochsOps", "x/epochs/types", "MultiEpochHooks.AfterEpochEnd", "MultiEpochHooks.BeforeEpochStart", "panicCatchingEpochHook")
+	pinK("EpochsOps", "osmoutils", "ApplyFuncIfNoError", "applyFunc", "IsOutOfGasError")
+}
